@@ -172,7 +172,7 @@ gets a graceful delete call in that pass. -/
 theorem kill_sweeps_all_pass (s : Sys) (jo : JobObj) (rj rjOut : Job)
     (hok : (syncJobTasks s jo rj).2 = some rjOut)
     (hk : ∃ k : Int, rj.killTimestamp = some k ∧ k ≤ s.clock) :
-    ∃ s1 rj1 tasks1, syncCreateTasks s jo rj (tasks0 s rj) = (s1, some (rj1, tasks1)) ∧
+    ∃ s1 rj1 tasks1, syncCreateTasks s jo rj (tasks0 s jo rj) = (s1, some (rj1, tasks1)) ∧
       ∀ t ∈ tasks1, isTaskFinished t = false → t.deletionTimestamp = none →
         ∃ c ∈ newCalls s (syncJobTasks s jo rj).1, IsPodDelete c false ∧ c.name = t.name := by
   obtain ⟨s1, rj1, tasks1, s2, rj2, s3, rj3, s4, rj4, s5, rj5, hc, _, _, hkj, _, _, hcalls, _, ⟨l3, e3⟩, _, hle, _,
@@ -224,7 +224,7 @@ theorem future_kill_timer_armed (s : Sys) (jo : JobObj) (rj rjOut : Job) (k : In
     (hok : (syncJobTasks s jo rj).2 = some rjOut)
     (hk : rj.killTimestamp = some k) (hlt : s.clock < k) :
     TimerBy (syncJobTasks s jo rj).1.q (jobKey jo) (dueAt s k) ∨
-    ∃ s1 rj1 tasks1, syncCreateTasks s jo rj (tasks0 s rj) = (s1, some (rj1, tasks1)) ∧
+    ∃ s1 rj1 tasks1, syncCreateTasks s jo rj (tasks0 s jo rj) = (s1, some (rj1, tasks1)) ∧
       ∀ t ∈ tasks1, isTaskFinished t = false → t.deletionTimestamp = none →
         ∃ c ∈ newCalls s (syncJobTasks s jo rj).1, IsPodDelete c false ∧ c.name = t.name := by
   obtain ⟨s1, rj1, tasks1, s2, rj2, s3, rj3, s4, rj4, s5, rj5, hc, _, _, hkj, hfd, heq, hcalls, _, ⟨l3, e3⟩, _, hle, _,
@@ -258,7 +258,7 @@ theorem future_kill_timer_armed_sync (s : Sys) (jo : JobObj) (rjOut : Job) (k : 
     (hok : (syncJobTasks s jo jo.job).2 = some rjOut)
     (hk : jo.job.killTimestamp = some k) (hlt : s.clock < k) :
     TimerBy (sync s jo).1.q (jobKey jo) (dueAt s k) ∨
-    ∃ s1 rj1 tasks1, syncCreateTasks s jo jo.job (tasks0 s jo.job) = (s1, some (rj1, tasks1)) ∧
+    ∃ s1 rj1 tasks1, syncCreateTasks s jo jo.job (tasks0 s jo jo.job) = (s1, some (rj1, tasks1)) ∧
       ∀ t ∈ tasks1, isTaskFinished t = false → t.deletionTimestamp = none →
         ∃ c ∈ newCalls s (syncJobTasks s jo jo.job).1, IsPodDelete c false ∧ c.name = t.name := by
   rcases future_kill_timer_armed s jo jo.job rjOut k hok hk hlt with h | h
@@ -494,7 +494,7 @@ ORIGINAL state and cached Job, by exactly one of the three reasons of `DeleteRea
 pending timeout reached (graceful), kill condition (graceful), force-delete gate (forced). -/
 theorem pass_deletes_justified (s : Sys) (jo : JobObj) (rj : Job) :
     ∀ c ∈ newCalls s (syncJobTasks s jo rj).1, c.verb = "delete" →
-      c.res = "pods" ∧ ∃ s1 rj1 tasks1, syncCreateTasks s jo rj (tasks0 s rj) = (s1, some (rj1, tasks1)) ∧
+      c.res = "pods" ∧ ∃ s1 rj1 tasks1, syncCreateTasks s jo rj (tasks0 s jo rj) = (s1, some (rj1, tasks1)) ∧
         ∃ t ∈ tasks1, t.name = c.name ∧ DeleteReason s rj rj1 c t := by
   intro c hc hv
   obtain ⟨hr, s1, rj1, tasks1, h1, _, h2⟩ := taskOrigin_delete s jo rj c ((syncJobTasks_origin s jo rj).2 c hc) hv
